@@ -292,7 +292,7 @@ func (x *fnv) applyContract(s *State, fc *FuncContract, declSig *types.Signature
 	}
 	// vacuity guard: the callee's postconditions must be consistent with what is known here
 	if len(fc.Ensures) > 0 {
-		x.cover(s, fmt.Sprintf("call.%s.%d", sanitize(short), x.nextOrd("cover.call."+short)), pos)
+		x.cover(s, "call."+sanitize(short), pos)
 	}
 	return res
 }
